@@ -1428,6 +1428,10 @@ class H2Connection:
         delta = new_value - old_value
 
         for stream in self.streams.values():
+            # Closed streams that have not been cleaned up yet no longer have
+            # a flow control window that could overflow.
+            if stream.closed:
+                continue
             stream.outbound_flow_control_window = guard_increment_window(
                 stream.outbound_flow_control_window,
                 delta
